@@ -159,6 +159,14 @@ def e1_jobs(prop, tier, seed):
         j.env["MIRIFLAGS"] = f"-Zmiri-seed={seed * 31 + k}"
         j.crash = crash
     jobs += mj
+    # the same walks interpreted for a 32-bit target (pointer-tag arithmetic, usize-dependent limits), thorough only
+    if not quick:
+        args32 = [["walk", "--seed", str(seed * 7919 + 100 + k), "--shard", str(k), "--nshards", "6", "--count", "6", "--ops-min", "25", "--ops-max", "45"] + base for k in range(6)]
+        mj32 = miri_jobs("seqdrive", args32, "miri-i686", seeds=None, target="i686-unknown-linux-gnu", timeout=3600)
+        for k, j in enumerate(mj32):
+            j.env["MIRIFLAGS"] = f"-Zmiri-seed={seed * 37 + k}"
+            j.crash = crash
+        jobs += mj32
     # 32-bit only: a front offset beyond usize::MAX>>5 promotes the inline BytesMut inside advance();
     # reached under Miri i686 with a 128 MiB zeroed buffer
     if prop in ("C01", "C02", "C03", "C04", "C07", "C08"):
